@@ -28,7 +28,7 @@ from . import dailyref as R
 
 A_LAYOUTS_DOC = "one sub-model / weekday+weekend / two seasons; present days share one symbolic temperature"
 EXPLANATION = "C06: (a) daily predict index/finiteness around DST; (b) hourly 24-slot normalisation and its inverse with symbolic features/predictions."
-ZONES_QUICK = ["US/Pacific", "Europe/London", "Australia/Sydney", "America/Santiago", "America/Havana", "America/St_Johns", "America/Nuuk"]
+ZONES_QUICK = ["US/Pacific", "Europe/London", "Australia/Sydney", "America/Santiago", "America/Havana", "America/St_Johns", "America/Nuuk", "Australia/Lord_Howe"]
 ZONES_THOROUGH = ZONES_QUICK + ["US/Eastern", "Europe/Berlin", "Pacific/Auckland", "Asia/Tehran", "Africa/Casablanca", "America/Sao_Paulo",
                                 "Asia/Amman", "Asia/Beirut", "America/Asuncion", "Australia/Adelaide", "Asia/Kolkata", "UTC"]
 BOUNDS = {"quick": dict(zones=ZONES_QUICK, years=[2021], days_around_transition=3, daily_rows=5, daily_layouts=A_LAYOUTS_DOC),
@@ -38,7 +38,7 @@ STUBS = ["minimal HourlyModel instance (object.__new__ + _ts_feature_norm/_categ
 MODELS_USED = ["symreal ExtensionArray", "object ndarray of proxies"]
 ASSUMPTIONS = ["IANA database (pytz) and pandas tz arithmetic are executed, not modelled: zones/transitions are an enumerated catalogue",
                "(c) complete hourly predict: hand-written stored model, concrete weather, enumerated spans; finiteness of hourly predictions is checked there only",
-               "zones whose offset changes by a fraction of an hour are outside (b): the hourly data class only accepts on-the-hour stamps"]
+               "fractional-hour clock changes: only Australia/Lord_Howe (30 minutes; a 25-row day whose hour number 1 occurs twice) is in the catalogue; other fractional shifts are outside (b)"]
 EXPECTED_REGIMES = ["23-hour day", "25-hour day", "transition at local midnight", "daily index across DST", "non-finite (inf) cell in the reporting frame",
                     "temperature-only reporting data (usage column all NaN)", "model with several sub-models and a gap in the reporting frame",
                     "calendar day absent before the transition day", "complete hourly predict across a transition"]
@@ -55,7 +55,7 @@ def transitions(zone, years):
         if t.year in years:
             before = tz.utcoffset(t - dt.timedelta(hours=2), is_dst=None) if False else pytz.utc.localize(t - dt.timedelta(seconds=1)).astimezone(tz).utcoffset()
             after = pytz.utc.localize(t + dt.timedelta(seconds=1)).astimezone(tz).utcoffset()
-            if before != after and abs((after - before).total_seconds()) == 3600:
+            if before != after and abs((after - before).total_seconds()) in ((3600, 1800) if zone == "Australia/Lord_Howe" else (3600,)):
                 out.append(pytz.utc.localize(t).astimezone(tz).date().isoformat())
     return sorted(set(out))
 
@@ -94,6 +94,12 @@ def hourly_index(zone, date, days=3, before=1):
 def span_index(zone, date, before):
     """before = position of the transition day in a 3-day span, or "skip": 4 days with the transition day third and
     the day before it absent from the calendar (a zone that skipped a date, e.g. Pacific/Apia 2011-12-30, or a removed day)"""
+    if before == "pair":
+        # a frame holding the same kind of transition of two consecutive years (a period longer than a year, seen through
+        # the days around its two transitions): the per-day search state must not leak from one transition day to the next
+        prev = [d for d in transitions(zone, [int(date[:4]) - 1]) if d[5:7] == date[5:7]]
+        cur = hourly_index(zone, date, before=1)
+        return hourly_index(zone, prev[0], before=1).append(cur) if prev else cur
     if before != "skip":
         return hourly_index(zone, date, before=before)
     idx = hourly_index(zone, date, days=4, before=2)
@@ -135,7 +141,7 @@ def run_b(case: Case, zone, tier):
         case.ground(True, "zone without DST: nothing to normalise")
         return
     # the transition day is the middle, the first and the last day of the span
-    work = [(d, b) for d in trs for b in ((1, 0, 2, "skip") if (tier == "quick" or d[:4] in ("2021", "2011") or (zone == "America/Nuuk" and d[:4] == "2024")) else (1,))]
+    work = [(d, b) for d in trs for b in ((1, 0, 2, "skip", "pair") if (tier == "quick" or d[:4] in ("2021", "2011") or (zone == "America/Nuuk" and d[:4] == "2024")) else (1,))]
     for date, before in work:
         idx = span_index(zone, date, before)
         n = len(idx)
